@@ -69,6 +69,11 @@ CLAIMS = {
   'design_ref': 'DESIGN.md section 4 / C17',
   'note': 'Trusted: pickle/shelve/dbm (shelf modelled as a dictionary), sha256 injective. write() exactness is a BOUNDED stand-in (<= 2 transfers, not counted). One recorded known finding: the key is a concatenation and therefore not injective (on-disk format change needed to repair).',
  },
+ 'C04': {
+  'text': 'Proof per function. receive_file and send_file are verified through loop contracts on their real bodies (arbitrary iteration, symbolic chunk and grant): each chunk is written (sent) once and then reported once, unchanged and in order, the byte counter equals the bytes written, the loop ends iff EOF or all announced bytes arrived, and nothing is read when nothing is missing. _download_file / _upload_file are executed for every outcome of the transport and the file system: the file is opened once in append mode and asked for filesize - offset bytes with the transfer\'s own callback; complete() is reachable only on the path where receive_file / send_file returned normally (and, for uploads, the peer closed the connection after a seek to the received offset) and filesize == offset + bytes moved; a connection fault leaves INCOMPLETE (download) or FAILED + PeerUploadFailed (upload), a file error FAILED(FILE_READ_ERROR), cancellation closes the file connection and re-raises. The resume offset is the local file size (0 if absent), recorded as bytes_transfered and sent as le(8, offset).',
+  'design_ref': 'DESIGN.md section 4 / C04',
+  'note': 'Trusted: file-system assumptions (A-fs), receive_data contract (C02), C03 state methods, C01 uint64 layout. NOT decided: byte identity of the pair of clients over a faulty transport for all cut points and segmentations (two-party), dishonest senders beyond not-COMPLETE, eventual completion. One defect found and fixed (8f2fc77).',
+ },
 }
 
 NA_DEFAULT = 'check not built yet (work in progress; see DESIGN.md section 4 for the planned contracts)'
